@@ -118,6 +118,10 @@ type FuncEnc struct {
 	noPreserveOuter  map[*ssa.Alloc]bool
 	invAsGoal        bool // loop invariant formulas are being built as proof goals (not assumptions)
 	fvBind           map[*ssa.FreeVar]ssa.Value
+	unroll           map[*ssa.BasicBlock]*unrollInfo // loops over slice literals, unrolled
+	unrollSkip       map[*ssa.BasicBlock]bool        // their body and return blocks (encoded by encodeUnrolled)
+	unrollIter       map[*ssa.BasicBlock]int
+	constInt         map[ssa.Value]int64             // values that are literals in the current unrolled iteration
 	Imprecise        []string          // over-approximations that make obligations undecidable here (untraced function values, unmodelled instructions)
 	BodyErrs         []string          // "request body could not be read/decoded" conditions seen so far
 }
@@ -586,6 +590,9 @@ func (e *FuncEnc) Encode() {
 	e.init()
 	fn := e.Fn
 	order := e.prepareCFG()
+	e.unrollIter = map[*ssa.BasicBlock]int{}
+	e.constInt = map[ssa.Value]int64{}
+	e.findUnrollable(order)
 	e.computePrivate()
 	e.computeLoopMods()
 
@@ -637,6 +644,13 @@ func (e *FuncEnc) Encode() {
 	e.entry = e.cur.clone()
 
 	for _, b := range order {
+		if e.unrollSkip[b] {
+			continue
+		}
+		if u := e.unroll[b]; u != nil {
+			e.encodeUnrolled(u)
+			continue
+		}
 		e.encodeBlock(b)
 	}
 	if e.PostEncode != nil {
@@ -694,8 +708,9 @@ func (e *FuncEnc) encodeBlock(b *ssa.BasicBlock) {
 	e.curBlock = b
 	// reach + incoming state
 	var preds []*ssa.BasicBlock
+	later := e.unroll[b] != nil && e.unrollIter[b] > 0 // a later iteration of an unrolled loop: entered from the latches
 	for _, p := range b.Preds {
-		if e.backEdge[[2]int{p.Index, b.Index}] {
+		if e.backEdge[[2]int{p.Index, b.Index}] != later {
 			continue
 		}
 		if _, ok := e.exit[p]; !ok {
@@ -852,8 +867,12 @@ func (e *FuncEnc) encodePhi(b *ssa.BasicBlock, phi *ssa.Phi, preds []*ssa.BasicB
 	// ordinary join
 	var vals []string
 	var conds []string
+	isPred := map[*ssa.BasicBlock]bool{}
+	for _, p := range preds {
+		isPred[p] = true
+	}
 	for i, p := range b.Preds {
-		if _, ok := e.exit[p]; !ok || e.backEdge[[2]int{p.Index, b.Index}] {
+		if !isPred[p] {
 			continue
 		}
 		vals = append(vals, e.v(phi.Edges[i]))
